@@ -54,7 +54,7 @@ CHECKS = {
     level='other',
     text=('Bounded symbolic proof on the narrow phase of the contact models: resolve_contact / apply_contact_forces runs in irsym on one (node, face) pair with all positions, normals, curvatures, cut-offs and strengths symbolic, '
           'for representative ordered pairs of cell types (quick: 5 pairs, contact model 1; thorough: all 25 pairs, models 0/1/2, both cut-off orders). The kernel is replaced by its contract (C05). Per feasible path z3 proves reciprocity, '
-          'no force beyond the largest cut-off, repulsion only on the forbidden side (inverted for epithelial-vs-ECM and nucleus-vs-epithelial), node pushed toward the surface point with the reaction toward the node, couplings mutual/epithelial-only/within the adhesion cut-off. An obligation z3 leaves undecided is re-searched with the scalar parameters fixed (a refutation found this way is replayed natively; a proof under fixed parameters does not count).'),
+          'no force beyond the largest cut-off, repulsion only on the forbidden side (inverted for epithelial-vs-ECM and nucleus-vs-epithelial), node pushed toward the surface point with the reaction toward the node, couplings mutual/epithelial-only/within the adhesion cut-off. A last part runs the whole model on the two-cell tissue of C06 with persistent ids ahead of the list positions: the hand-over log must contain no same-cell pair and every withheld pair must lie outside the cut-off box. An obligation z3 leaves undecided is re-searched with the scalar parameters fixed (a refutation found this way is replayed natively; a proof under fixed parameters does not count).'),
     note='Trusted: clang lowering (validated per model), irsym, normaliser, z3; kernel contract from C05. Outside: accumulation over many pairs under threads, broad phase, same-cell filtering (C06).',
     technique='symbolic execution of LLVM IR (per contact model) + z3 nonlinear real arithmetic; native replay',
     design='3/C07'),
@@ -95,7 +95,7 @@ CHECKS = {
     level='other',
     text=('The real run() of contact models 0, 1 and 2 (face list, update_face_aabbs, store_face_in_uspg, per-node voxel lookup, aabb_intersection_check) executes from the LLVM IR on a two/three-cell tissue whose query node p is symbolic in boxes that straddle voxel boundaries '
           '(three placements: at, far from, and straddling the origin; two cut-off settings; 8 sub-boxes each, 27 thorough). irsym records every (node, face) pair handed to the contact rules; per path z3 proves for all node/face pairs of different cells: not handed over => the node lies outside the face box padded by the cut-off. '
-          'A further set of explorations runs the SAME model object twice (as the solver does every time step) and adds: no pair is handed over more than once in one run. Models of failed obligations are replayed natively against a fresh model with one voxel per axis. Exact reals; many-cell tissues and symbolic cut-offs are not covered.'),
+          'Further explorations: persistent cell ids ahead of the list positions (no node may be handed to a face of its own cell), a cell with unused face slots (octahedron with a collapsed edge; the harness lists the real order of the model's face list; memory reports of the broad phase are candidates), and the SAME model object run twice (as the solver does every time step) and adds: no pair is handed over more than once in one run. Models of failed obligations are replayed natively against a fresh model with one voxel per axis. Exact reals; many-cell tissues and symbolic cut-offs are not covered.'),
     note='Trusted: clang lowering (validated per run incl. the reference run), irsym (OpenMP sequential model), exact polynomial normal form in p, z3. The narrow phase runs as is (C05/C07 are about it).',
     technique='symbolic execution of LLVM IR (whole contact-model run) with recorded hand-overs; z3 (linear real arithmetic + to_int); native differential replay against a single-voxel grid',
     design='3/C06'),
